@@ -295,6 +295,12 @@ fn range_offset_bound(
     };
     for j in part.clone() {
         match range_key(arr, j) {
+            // NULL keys sort as one block before (NULLS FIRST) or after
+            // (NULLS LAST) every non-NULL key. A trailing NULL reached here
+            // means no non-NULL key was inside the bound: the frame starts at
+            // the trailing NULLs (they are "following" every value), so
+            // `k FOLLOWING AND UNBOUNDED FOLLOWING` still covers them.
+            None if j > i => return Ok(j),
             None => continue,
             Some(v) => {
                 let inside = if !desc { v >= limit } else { v <= limit };
@@ -327,6 +333,10 @@ fn range_offset_end(
     let mut end = part.start;
     for j in part.clone() {
         match range_key(arr, j) {
+            // Leading NULLs (NULLS FIRST) precede every value: they are inside
+            // any frame that reaches back to them, so the end never falls
+            // before them (`UNBOUNDED PRECEDING AND k PRECEDING` keeps them).
+            None if j < i => end = j + 1,
             None => continue,
             Some(v) => {
                 let inside = if !desc { v <= limit } else { v >= limit };
